@@ -3532,6 +3532,14 @@ int bufr_read_dataset_dump( BUFR_Dataset *dts, FILE *fp )
    int status = 0;
 
    bufr_empty_datasubsets( dts );
+/*
+ * a dump only has a HEADER_STRING line when there is one: do not keep the previous dataset's
+ */
+   if (dts->header_string)
+      {
+      free( dts->header_string );
+      dts->header_string = NULL;
+      }
 
    if ((status = bufr_load_header( fp, dts )) > 0)
       status = bufr_load_datasubsets( fp, dts, status, BUFR_STRICT );
